@@ -27,6 +27,7 @@ Jobs ==
      [src |-> "x = a ^ b * c", ops |-> <<<<"tok", "DYN0">>, <<"infix", "DYN0", 3>>, <<"tok", "DYN1">>, <<"parse">>, <<"compile", "compact">>>>],
      [src |-> "mark\nlet a = 1 let b = 2", ops |-> <<<<"inst", "m">>, <<"inst", "m">>, <<"mode", TRUE, FALSE>>, <<"build">>, <<"parse">>, <<"build">>, <<"parse">>, <<"build">>, <<"parse">>>>],
      [src |-> "f(a)\n(b)\n@ a", ops |-> <<<<"tok", "DYN1">>, <<"prefix", "DYN1">>, <<"inst", "r">>, <<"inst", "s">>, <<"mode", FALSE, TRUE>>, <<"parse">>, <<"mode", FALSE, FALSE>>, <<"parse">>>>],
+     [src |-> "let s = \"caf\\xe9 \\u00e9 \\u{1F600}\" + 'x\\x41'\nprint(s)", ops |-> <<<<"parse">>, <<"compile", "compact">>, <<"compile", "pretty:tab:nosemi">>>>],
      [src |-> "a + b ( c ) : d", ops |-> <<<<"infix", "COLON", 2>>, <<"prefix", "MULTIPLY">>, <<"parse">>, <<"compile", "pretty:tab:nosemi+map">>, <<"compile", "compact">>>>] >>
 
 \* tokens the parser pulls for a source of the pool (current + peek primed at Build, one per NextToken)
